@@ -8,6 +8,7 @@ import (
 	"math/big"
 	"strconv"
 	"strings"
+	"time"
 
 	"github.com/CloudyKit/jet/v6"
 )
@@ -124,7 +125,26 @@ func c04Replay(i int, raw json.RawMessage) Result {
 		key = v.Shape + "|" + strings.Join(v.Ops, ",") + "|" + strings.Join(v.Leaves, ",")
 	}
 	forms := c04Forms(v.Toks, v.Full)
-	for _, fname := range []string{"spaced", "tight", "parens", "keywords"} {
+	fnames := []string{"spaced", "tight", "parens", "keywords"}
+	if v.Shape == "NOTB" && len(v.Ops) == 1 && v.Ops[0] != "&&" && v.Ops[0] != "||" && len(v.Toks) > 3 && v.Toks[0] == "!" && v.Toks[1] == "(" && v.Toks[len(v.Toks)-1] == ")" {
+		// "not" takes the whole comparison / arithmetic expression that follows it: the parentheses are optional
+		forms["notbare"] = "! " + strings.Join(v.Toks[2:len(v.Toks)-1], " ")
+		fnames = append(fnames, "notbare")
+	}
+	if i == 0 {
+		// the right operand of a string concatenation is rendered like the value itself would be
+		if t, err := c04Set.Parse("/d.jet", `{{ "took " + dur }}|{{ dur }}|{{ "level=" + lvl }}|{{ lvl }}`); err == nil {
+			var b bytes.Buffer
+			vars := jet.VarMap{}
+			vars.Set("dur", 1500*time.Millisecond).Set("lvl", c04Level(1))
+			if err := safeExecute(t, &b, vars, nil); err != nil || b.String() != "took 1.5s|1.5s|level=warn|warn" {
+				return Result{Sig: map[string]interface{}{"form": "concat-stringer", "shape": "B1", "ops": "+", "kind": "value"}, Key: "probe",
+					Observed: b.String(), Expected: "took 1.5s|1.5s|level=warn|warn",
+					Detail: fmt.Sprintf("string + a value with a String method rendered %q (err %v), want %q", b.String(), err, "took 1.5s|1.5s|level=warn|warn")}
+			}
+		}
+	}
+	for _, fname := range fnames {
 		src := "{{ " + forms[fname] + " }}"
 		sig := map[string]interface{}{"form": fname, "shape": v.Shape, "ops": strings.Join(v.Ops, " ")}
 		t, err := c04Set.Parse("/e.jet", src)
@@ -173,6 +193,44 @@ func c04Replay(i int, raw json.RawMessage) Result {
 	return Result{OK: true, Key: key}
 }
 
+// c05DataProbes: ranging over '.' when the data given to Execute is a typed nil (no elements: the else branch), and over
+// the result of a function that returns a slice in one execution and a map in the next
+func c05DataProbes() *Result {
+	t, err := c04Set.Parse("/r.jet", `{{ range . }}x{{ else }}empty{{ end }}`)
+	if err != nil {
+		return nil
+	}
+	for name, data := range map[string]interface{}{"nil slice": []string(nil), "nil map": map[string]int(nil), "empty slice": []int{}} {
+		var b bytes.Buffer
+		if err := safeExecute(t, &b, nil, data); err != nil || b.String() != "empty" {
+			return &Result{Sig: map[string]interface{}{"kind": "cond", "form": "range-data", "in": name, "shape": "", "ops": ""}, Key: "probe", Observed: b.String(), Expected: "empty",
+				Detail: fmt.Sprintf("{{ range . }}x{{ else }}empty{{ end }} with a %s as data rendered %q (err %v), want empty", name, b.String(), err)}
+		}
+	}
+	t2, err := c04Set.Parse("/r2.jet", `{{ range k, v := anycoll() }}[{{ v }}]{{ else }}empty{{ end }}`)
+	if err != nil {
+		return nil
+	}
+	for round, e := range []struct {
+		coll interface{}
+		want string
+	}{{[]string{"a", "b"}, "[a][b]"}, {map[string]string{"k": "m"}, "[m]"}, {[]string{}, "empty"}, {map[string]string{}, "empty"}, {[]string{"c"}, "[c]"}} {
+		vars := jet.VarMap{}
+		coll := e.coll
+		vars.Set("anycoll", func() interface{} { return coll })
+		var b bytes.Buffer
+		if err := safeExecute(t2, &b, vars, nil); err != nil || b.String() != e.want {
+			return &Result{Sig: map[string]interface{}{"kind": "cond", "form": "range-any", "in": fmt.Sprint(round), "shape": "", "ops": ""}, Key: "probe", Observed: b.String(), Expected: e.want,
+				Detail: fmt.Sprintf("execution %d: range over the %T returned by a func() interface{} rendered %q (err %v), want %q", round, e.coll, b.String(), err, e.want)}
+		}
+	}
+	return nil
+}
+
+type c04Level int
+
+func (l c04Level) String() string { return []string{"info", "warn", "error"}[l] }
+
 func indexOfTok(toks []string, op string) int {
 	for i, t := range toks {
 		if t == op {
@@ -194,6 +252,11 @@ func c05CondReplay(i int, raw json.RawMessage) Result {
 		c04Init()
 	}
 	key := v.Shape + "|" + strings.Join(v.Ops, ",") + "|" + strings.Join(v.Leaves, ",")
+	if i == 0 {
+		if r := c05DataProbes(); r != nil {
+			return *r
+		}
+	}
 	truthy := true
 	switch v.V.T {
 	case "int", "float", "bool":
